@@ -60,8 +60,8 @@ def run(ctx):
     ctx.assumptions = ["TLC's evaluation of the specification", "malformed FILE NAMES in lookup directories may be reported "
                        "(inspected at listing time): not part of the replacements"]
     if ctx.tier == "quick":
-        rr.run_cfg(ctx, "Reader_files2_bodies.cfg", "files", sample_mod=3, paired=True, focus=_focus)
-        rr.run_cfg(ctx, "Reader_ns2_bodies.cfg", "namespace", sample_mod=3, paired=True, focus=_focus)
+        rr.run_cfg(ctx, "Reader_files2_bodies.cfg", "files", sample_mod=5, paired=True, focus=_focus)
+        rr.run_cfg(ctx, "Reader_ns2_bodies.cfg", "namespace", sample_mod=5, paired=True, focus=_focus)
         rr.run_cfg(ctx, "Reader_files3_lean_two.cfg", "files", sample_mod=12, paired=True, focus=_focus)
         ctx.exhaustive = False
     else:
